@@ -108,17 +108,45 @@ func resolveOnce(v ssa.Value) (ssa.Value, bool) {
 		if cal == nil || privateCallSite(cal) != ssa.CallInstruction(x) || cal.Signature.Results().Len() != 1 {
 			return nil, false
 		}
-		var ret ssa.Value
-		n := 0
-		Instrs(cal, func(in ssa.Instruction) {
-			if r, ok := in.(*ssa.Return); ok && len(r.Results) == 1 {
-				n++
-				ret = r.Results[0]
-			}
-		})
-		if n == 1 && ret != nil {
-			return ret, true
+		return uniqueResult(cal, 0)
+	case *ssa.Extract:
+		cl, ok := x.Tuple.(*ssa.Call)
+		if !ok {
+			return nil, false
 		}
+		cal := cl.Call.StaticCallee()
+		if cal == nil || privateCallSite(cal) != ssa.CallInstruction(cl) {
+			return nil, false
+		}
+		return uniqueResult(cal, x.Index)
+	}
+	return nil, false
+}
+
+// uniqueResult: every return of fn yields the same SSA value as result idx.
+func uniqueResult(fn *ssa.Function, idx int) (ssa.Value, bool) {
+	var ret ssa.Value
+	ok := true
+	n := 0
+	Instrs(fn, func(in ssa.Instruction) {
+		r, isR := in.(*ssa.Return)
+		if !isR || in.Block() == fn.Recover {
+			return
+		}
+		if idx >= len(r.Results) {
+			ok = false
+			return
+		}
+		v := Strip(r.Results[idx])
+		n++
+		if ret == nil {
+			ret = v
+		} else if ret != v {
+			ok = false
+		}
+	})
+	if ok && n > 0 && ret != nil {
+		return ret, true
 	}
 	return nil, false
 }
